@@ -12,6 +12,13 @@ not change, nothing is re-proved); one that parses and differs is emitted as wri
 the correspondence run looks for the failing input); one that cannot be located or parsed is emitted in canonical
 form and listed in `Gen.unparsed` (the tie for that piece then rests on the correspondence run alone).
 
+Round five: before a body is compared it is NORMALISED (section "normalisation of function bodies" below): `this->` dropped,
+`const` locals with a side-effect free initialiser inlined at their uses, guard clause / if-else / braces / `?:` read as one
+value (compile-time conditions select the branch pieces), calls of sibling operators of the same class replaced by the
+sibling's own translated body (with cycle detection).  The atoms of a piece are recognised by the expressions they stand
+for, never by the names of locals.  What cannot be normalised soundly is left alone and the reader fails on it (loudly:
+`Gen.unparsed`).
+
 Each piece may have several occurrences (overloads for the mutable and the const iterator, the same primitive in
 several iterator classes); the first occurrence that differs from the canonical form wins."""
 import itertools
@@ -456,6 +463,27 @@ def pure_expr(e):
     return True
 
 
+DECL_PREFIX = re.compile(r"^\s*((?:static\s+)?(?:constexpr\s+)?(?:const\s+)?(?:typename\s+)?"
+                         r"(?:[A-Za-z_]\w*\s*::\s*)*[A-Za-z_]\w*(?:\s*<(?:[^<>]|<[^<>]*>)*>)?(?:\s*::\s*\w+)*\s*(?:const\b\s*)?)"
+                         r"([&*]?\s*[A-Za-z_]\w*\s*(?:=(?!=)|\(|\{).*)$", re.S)
+
+
+def split_declarators(stmt):
+    m = DECL_PREFIX.match(stmt)
+    if not m or m.group(1).split()[-1:] == ["return"] or top_index(m.group(2), ",") < 0:
+        return None
+    parts, t = [], m.group(2)
+    while True:
+        k = top_index(t, ",")
+        parts.append(t if k < 0 else t[:k])
+        if k < 0:
+            break
+        t = t[k + 1:]
+    if not all(re.match(r"\s*[&*]?\s*[A-Za-z_]\w*\s*(?:=(?!=)|\(|\{)", x) for x in parts):
+        return None
+    return [m.group(1) + " " + x.strip() for x in parts]
+
+
 def inline_locals(body):
     """inline `const T x = e;`, `const T& x = e;`, `const auto x(e);` ... at the uses of x (see the section comment)"""
     out, rest = "", body
@@ -464,6 +492,10 @@ def inline_locals(body):
         if i < 0:
             return out + rest
         stmt, tail = rest[:i], rest[i + 1:]
+        several = split_declarators(stmt)
+        if several:   # `const T x = e1, y = e2;` is `const T x = e1; const T y = e2;`
+            rest = ";".join(several) + ";" + tail
+            continue
         m = DECL.match(stmt)
         ok = False
         if m and (m.group("q1").find("const") >= 0 or m.group("q2")) and m.group("type").split("::")[-1].strip() not in CPP_KEYWORDS - {"auto"}:
